@@ -715,6 +715,14 @@ def check_case(case):
 
 
 def replay(path):
+    from harness import lianrun
+    try:
+        return _replay(path)
+    finally:
+        lianrun.cleanup_scratch()
+
+
+def _replay(path):
     rec = common.load_replay(path)
     case = rec["case"]
     out, info, col = check_case(case)
@@ -741,6 +749,14 @@ def replay(path):
 
 
 def main(tier, seed, t0):
+    from harness import lianrun
+    try:
+        return _main(tier, seed, t0)
+    finally:
+        lianrun.cleanup_scratch()       # check.py leaves through os._exit: atexit handlers do not run
+
+
+def _main(tier, seed, t0):
     col = Collector()
     # 1. calibration programs and committed regression inputs
     for path in common.replay_files(ID):
@@ -769,7 +785,7 @@ def main(tier, seed, t0):
     if tier == "quick":
         total, p2_pct = 416, 0
     else:
-        total, p2_pct = 12000, 20
+        total, p2_pct = 10000, 20
     nsh = max(1, common.NCPU) * (1 if tier == "quick" else 4)
     per = (total + nsh - 1) // nsh
     args = [(common.shard_seed(seed, i), per, avoid, p2_pct, True) for i in range(nsh)]
